@@ -7,9 +7,10 @@
 package leveldb
 
 import (
-	"bufio"
+	"bytes"
 	"encoding/binary"
 	"io"
+	"io/ioutil"
 	"strings"
 
 	"github.com/syndtr/goleveldb/leveldb/errors"
@@ -19,6 +20,8 @@ import (
 type byteReader interface {
 	io.Reader
 	io.ByteReader
+	// Len returns the number of bytes that are left to read.
+	Len() int
 }
 
 // These numbers are written to disk and should not be changed.
@@ -233,10 +236,16 @@ func (p *sessionRecord) readBytes(field string, r byteReader) []byte {
 	if p.err != nil {
 		return nil
 	}
+	// The length comes from the file: make sure that many bytes are really
+	// there before allocating.
+	if n > uint64(r.Len()) {
+		p.err = errors.NewErrCorrupted(storage.FileDesc{}, &ErrManifestCorrupted{field, "short read"})
+		return nil
+	}
 	x := make([]byte, n)
 	_, p.err = io.ReadFull(r, x)
 	if p.err != nil {
-		if p.err == io.ErrUnexpectedEOF {
+		if p.err == io.ErrUnexpectedEOF || p.err == io.EOF {
 			p.err = errors.NewErrCorrupted(storage.FileDesc{}, &ErrManifestCorrupted{field, "short read"})
 		}
 		return nil
@@ -252,13 +261,25 @@ func (p *sessionRecord) readLevel(field string, r io.ByteReader) int {
 	if p.err != nil {
 		return 0
 	}
-	return int(x)
+	// A level is used as a slice index: it must fit a non-negative int.
+	level := int(x)
+	if level < 0 || uint64(level) != x {
+		p.err = errors.NewErrCorrupted(storage.FileDesc{}, &ErrManifestCorrupted{field, "invalid level"})
+		return 0
+	}
+	return level
 }
 
 func (p *sessionRecord) decode(r io.Reader) error {
 	br, ok := r.(byteReader)
 	if !ok {
-		br = bufio.NewReader(r)
+		// The lengths found in the record are validated against what is left
+		// of it, so the record is needed as a whole.
+		data, err := ioutil.ReadAll(r)
+		if err != nil {
+			return err
+		}
+		br = bytes.NewReader(data)
 	}
 	p.err = nil
 	for p.err == nil {
